@@ -155,3 +155,11 @@ Example ex_measure :
   mu s = 10 /\ run_enabled o1 s [BrSignal; BrWatch; BrWatch; BrShutdownChan; BrWatch] = true /\
   st_pc (fst (run o1 s (map LRun [BrSignal; BrWatch; BrWatch; BrShutdownChan; BrWatch]))) = PDone DStopped.
 Proof. vm_compute. auto. Qed.
+
+(* no_bringup_after_failed_shutdown / failed_run_returns_the_error are about something: the retire
+   failure of ex_retire_fail contains a failed Shutdown and returns RErrRetire *)
+Example ex_failed_shutdown_present :
+  let r := run o1 init [LRun BrWatch; LRun BrWatch; LInjSig SigHup; LRun BrSignal; LRun BrWatch; LRun BrWatch;
+                        LInjWatch false; LRun BrWatch; LRun BrWatch] in
+  existsb is_failed_shut (snd r) = true /\ last_opt (snd r) = Some (AReturn RErrRetire).
+Proof. vm_compute. auto. Qed.
